@@ -117,12 +117,30 @@ type c07World struct {
 // starts from it (a library that keeps a cache or a pool would otherwise make the executions depend on each other)
 var c07Saved *core.SavedGlobals
 
-func c07Build(sc c07Scenario) *c07World {
+func c07Build(sc c07Scenario) *c07World { return c07BuildFor(sc, -1) }
+
+// c07BuildFor builds the world for all calls of the scenario (only < 0) or for call `only` alone. The shared Expression
+// is compiled only if a call that will run needs it: a library that remembers what it compiled must not have seen the
+// scenario's expression when another call's solo outcome is taken.
+func c07BuildFor(sc c07Scenario, only int) *c07World {
 	if c07Saved != nil && len(verifrt.UsesSync) > 0 {
 		c07Saved.Restore()
 	}
 	w := &c07World{docA: c07DocA(), docB: c07DocB(), bad: c07DocBad()}
-	w.expr, _ = core.Compile(sc.Expr)
+	needs := false
+	for i, call := range sc.Calls {
+		if (only < 0 || i == only) && strings.HasPrefix(call, "E(") {
+			needs = true
+		}
+	}
+	for _, call := range sc.Pre {
+		if strings.HasPrefix(call, "E(") {
+			needs = true
+		}
+	}
+	if needs || only < 0 {
+		w.expr, _ = core.Compile(sc.Expr)
+	}
 	for _, call := range sc.Pre {
 		w.do(sc.Expr, call)
 	}
@@ -205,7 +223,7 @@ func c07Solo(sc c07Scenario) ([]core.Obs, *core.Violation) {
 	w := c07Build(sc)
 	want := make([]core.Obs, len(sc.Calls))
 	for i := range sc.Calls {
-		w2 := c07Build(sc)
+		w2 := c07BuildFor(sc, i)
 		init := w2.shared()
 		var bad string
 		sched.Run([]*sched.Task{w2.tasks[i]}, nil, func(x *sched.Exec, ts []*sched.Task) bool {
